@@ -290,6 +290,31 @@ theorem C17_strict_sni_iff (authority : Bytes) (names : List Bytes) :
     · rintro ⟨e, hm, hx⟩; exact ⟨e, hm, (entryMatches_iff _ _).mp hx⟩
     · rintro ⟨e, hm, hx⟩; exact ⟨e, hm, (entryMatches_iff _ _).mpr hx⟩
 
+/-- a wildcard name never covers its own apex -/
+theorem C17_strict_sni_no_apex (suf h : Bytes) (hh : lower h = lower suf) :
+    ¬ SniCovers (STAR :: DOT :: suf) h := by
+  rintro (⟨h1, _⟩ | ⟨suf', lm, rest, h1, _, h3, _, _, h6⟩)
+  · exact h1 (by simp)
+  · cases h1
+    have l1 := congrArg List.length hh
+    have l2 := congrArg List.length h6
+    simp only [lower_length] at l1 l2
+    rw [h3] at l1
+    simp at l1
+    omega
+
+/-- a wildcard name covers exactly one extra label: the host has one more dot
+    than the suffix (no match across dots, no deeper sub-domain) -/
+theorem C17_strict_sni_one_label (suf h : Bytes) (hc : SniCovers (STAR :: DOT :: suf) h) :
+    h.count DOT = suf.count DOT + 1 := by
+  rcases hc with ⟨h1, _⟩ | ⟨suf', lm, rest, h1, _, h3, _, h5, h6⟩
+  · exact absurd (by simp) h1
+  · cases h1
+    have hc := congrArg (List.count DOT) h6
+    rw [count_dot_lower, count_dot_lower] at hc
+    rw [h3, List.count_append, List.count_cons, List.count_eq_zero_of_not_mem h5, hc]
+    simp
+
 /-- the name returned is one of the snapshot and covers the host -/
 theorem C17_strict_sni_matched (authority : Bytes) (names : List Bytes) (e : Bytes)
     (h : matchedCertName authority names = some e) : e ∈ names ∧ SniCovers e (hostOf authority) := by
